@@ -408,6 +408,8 @@ class BaseMultipartText(BaseText):
         """
 
         if isinstance(key, int):
+            if not -len(self) <= key < len(self):
+                raise IndexError('richtext index out of range')
             start = key
             end = None
         elif isinstance(key, slice):
